@@ -424,17 +424,17 @@ pub fn run(run: &Run) {
 		}
 	});
 	run.enumerate("sharing-families", 8, sharing_case);
-	let n = run.tier.pick(24_000, 300_000);
+	let n = run.tier.pick(240_000, 2_400_000);
 	run.explore("programs", n, 20..=400, |src| {
 		let p = gen_eval::program(src, 5, 60, 2, 0, 0);
 		check(run, &p.closed())
 	});
-	let n = run.tier.pick(6_000, 80_000);
+	let n = run.tier.pick(60_000, 600_000);
 	run.explore("programs-large", n, 100..=900, |src| {
 		let p = gen_eval::program(src, 7, 150, 1, 0, 0);
 		check(run, &p.closed())
 	});
-	let n = run.tier.pick(10_000, 150_000);
+	let n = run.tier.pick(8_000, 100_000);
 	run.explore("tailstrict", n, 20..=400, |src| tailstrict_case(run, src));
 	for p in ["LocalRhs", "Arg", "Default", "Branch", "ShortCircuitRhs", "Element", "Field", "ObjLocal"] {
 		run.require_class(&format!("unneeded:{p}"), 40);
